@@ -1504,6 +1504,11 @@ namespace link_layer {
                 if ( output.size )
                 {
                     result = handle_ll_control_data( pdu, output );
+
+                    // The queue of the connection callbacks holds only a few events. Several LL control PDUs within one
+                    // connection event would overflow it and events (even the closing of the connection) would get lost.
+                    this->template handle_connection_events< link_layer< Server, ScheduledRadio, Options... > >();
+
                     this->free_ll_l2cap_received();
                     pdu = this->next_ll_l2cap_received();
                 }
